@@ -26,6 +26,8 @@ No cast is applied in the specification.
 * `tmp_restores`, `x64_restored_allclose`, `x64_restored_to_onnx`, `x64_history_restored`:
                              the global x64 flag is restored for every body (arbitrary nesting,
                              flag writes and exceptions inside), and for every history of calls
+* `x64_restored_to_onnx_whole_call`, `flagFree_restoring`: … including the emit stage after the guarded
+                             block, as long as that stage does not write the flag itself
 * `force_alone_not_restoring` (information) `_force_jax_x64` alone would not have this property
 -/
 import J2O.Lemmas.C18
@@ -198,6 +200,46 @@ theorem restoring_seq (a b : XP) (ha : Restoring a) (hb : Restoring b) : Restori
 
 theorem restoring_catch (a : XP) (ha : Restoring a) : Restoring (.catch a) := by
   intro f; simp only [xrun]; exact ha f
+
+/-- code that never writes the flag except inside a `_temporary_x64` block (which restores it) -/
+def XP.flagFree : XP → Bool
+  | .skip => true
+  | .raise => true
+  | .set _ => false
+  | .seq a b => a.flagFree && b.flagFree
+  | .tmp _ _ => true
+  | .force _ b => b.flagFree
+  | .catch b => b.flagFree
+
+theorem flagFree_restoring : ∀ (p : XP), p.flagFree = true → Restoring p := by
+  intro p
+  induction p with
+  | skip => intro _ f; rfl
+  | raise => intro _ f; rfl
+  | set b => intro h; simp [XP.flagFree] at h
+  | seq a b iha ihb =>
+    intro h
+    simp only [XP.flagFree, Bool.and_eq_true] at h
+    exact restoring_seq a b (iha h.1) (ihb h.2)
+  | tmp en body _ => intro _; exact tmp_restores en body
+  | force en body ih =>
+    intro h f
+    simp only [XP.flagFree] at h
+    simp only [xrun]
+    rw [ih h]
+    cases f <;> cases en <;> rfl
+  | «catch» body ih =>
+    intro h
+    simp only [XP.flagFree] at h
+    exact restoring_catch body (ih h)
+
+/-- the whole `to_onnx` call: the guarded block, then the emit stage (materialise parameters, custom
+    names, `to_proto`, save) — which must not write the flag: whether any stage returns or raises, the
+    flag is as found -/
+theorem x64_restored_to_onnx_whole_call (en : Bool) (pre body post emit : XP) (f : Bool)
+    (h : emit.flagFree = true) :
+    (xrun (.seq (.tmp en (.seq pre (.seq (.force en body) post))) emit) f).1 = f :=
+  restoring_seq _ _ (tmp_restores en _) (flagFree_restoring emit h) f
 
 /-- a history of calls: each entry is (precision flag, body, is the exception caught by the
     caller?) -/
